@@ -65,6 +65,33 @@ def movable(name="mot"):
 MOT = movable()
 ALPHABET["set"] = msg("set", MOT, 1)
 
+CTX = {"scenario": None}
+
+
+def movable_async(name="amot"):
+    """a Movable whose stop() is asynchronous: it returns an awaitable completed later by the environment, so the engine's cleanup
+    (_stop_movable_objects: at pause, at suspension and in the epilogue) itself suspends and requests can land inside it"""
+    def set_(I_, o, a, k):
+        _report("dev-set", o)
+        return _status(I_)
+
+    def stop(I_, o, a, k):
+        sc = CTX["scenario"]
+        f = aio.AFuture(sc.loop, "devfut", env=True)
+        f.msg = None
+        f.no_fail = True
+        sc.devfuts.append(f)
+        f.add_done_callback(lambda fut: _report("dev-stop", o) if fut.state == "FINISHED" and fut.exc is None else None)
+        f.facade.spec["awaitable"] = True
+        return f.facade
+    return Opaque(name, {"token": "dev", "truth": True, "isinstance_default": False, "isinstance": {"Movable": True, "Stoppable": True},
+                         "hasattr": {"pause": False, "resume": False, "stop": True, "name": True}, "attrs": {"name": name, "parent": None},
+                         "methods": {"set": set_, "stop": stop}})
+
+
+AMOT = movable_async()
+ALPHABET["set_async"] = msg("set", AMOT, 1)
+
 
 def _status(I_):
     return Opaque(I_.w.fresh("status"), {"token": "status", "truth": True, "isinstance_default": False, "hasattr": {},
@@ -122,6 +149,7 @@ class Scenario:
         eng.ghost["key"] = self.ghost_key = {}
         self.loop.env_menu = self.env_menu
         LEDGER["event"] = eng.event
+        CTX["scenario"] = self
         if pretripped is not None:
             # an installed suspender (abstract: what SuspenderBase.get_futures is proved to return) that is / is not tripped when the plan starts
             if pretripped:
@@ -198,7 +226,8 @@ class Scenario:
         for f in self.devfuts:
             if not f.done() and not getattr(f, "fired", False):
                 out.append((f"dev-ok", lambda f=f: self.complete(f, True)))
-                out.append((f"dev-fail", lambda f=f: self.complete(f, False)))
+                if not getattr(f, "no_fail", False):
+                    out.append((f"dev-fail", lambda f=f: self.complete(f, False)))
                 break          # device futures complete in order of creation (one device)
         for t in self.loop.timers:
             if not t.done() and not getattr(t, "fired", False):
